@@ -258,6 +258,9 @@ func (e *evidence) finish(wall float64, exit int) {
 	}
 	b, _ := json.MarshalIndent(out, "", " ")
 	dir := filepath.Join(verifRoot, "evidence")
+	if d := os.Getenv("VERIF_EVIDENCE_DIR"); d != "" {
+		dir = d // self-tests against seeded changes must not overwrite the real evidence
+	}
 	os.MkdirAll(dir, 0o755)
 	os.WriteFile(filepath.Join(dir, e.prop+".json"), b, 0o644)
 }
